@@ -497,15 +497,22 @@ Section Faithful.
                    if negb (option_eqb String.eqb (f_name f) (pf_name pf)) then None
                    else
                      let t := pty_subst env (pf_ty pf) in
-                     (* Box at field level *)
+                     (* Box at field level; since the F21 repair a COMPACT field is printed without
+                        the Box (the marker needs the bare type), so for a field whose registry type
+                        is a Compact entry the wrapper may be absent *)
+                     let cmp := match resolve r (uncow r (f_ty f)) with
+                                | Some fty => match t_def fty with TDCompact _ => true | _ => false end
+                                | None => false
+                                end in
+                     let must_box := if is_boxed_gen f then negb cmp else false in
                      let t_unboxed :=
                        match t with
                        | PPath true segs =>
                            match path_is segs (alloc_path ["boxed"; "Box"]) with
                            | Some [inner] => if is_boxed_gen f then Some inner else None
-                           | _ => if is_boxed_gen f then None else Some t
+                           | _ => if must_box then None else Some t
                            end
-                       | _ => if is_boxed_gen f then None else Some t
+                       | _ => if must_box then None else Some t
                        end in
                      match t_unboxed with
                      | None => None
